@@ -317,12 +317,12 @@ def _receive_cer(ctx: Ctx, model, nc, P, K):
     # one send per path
     cons = "receive_cer:one-answer-per-path"
     ctx.inst(cons)
-    # (for a connection whose exchange is pending; in any other state the CER is ignored)
-    pending = g.guard_edges(lambda t: at.label_when(
-        t, lambda a: False if (a.subject == f"{conn}.state" and a.op == "=="
-                               and a.value == P("PEER_CONNECTED")) else None))
-    if g.exit in g.reach([g.entry], normal_blocked=sends, blocked_edges=pending):
-        ctx.fail(cons, f.loc(), "receive_cer can return without answering the CER")
+    # (in every state: a CER repeated on an established connection is answered as well - only
+    # the completion of the handshake is restricted to PEER_CONNECTED)
+    if g.exit in g.reach([g.entry], normal_blocked=sends):
+        ctx.fail(cons, f.loc(), "receive_cer can return without answering the CER (a request "
+                 "that is silently ignored also leaves its origin record behind until the "
+                 "connection closes)")
     for s in sends:
         if any(t in g.reach([s], include_starts=False) for t in sends):
             ctx.fail(cons, g.loc(s), "two CEAs can be sent for one CER")
